@@ -20,6 +20,8 @@ exist independently of any text.  For every writer route of xtuml/persist.py
               two associations between one pair of classes, two reflexive associations, phrases differing in a letter
     nonfinite OBSERVATION only: a REAL attribute holding inf / -inf / nan is outside the persistable domain (the format has no
               numeral for it: the writers emit the bare word, the loader raises ParsingException); counted, not demanded
+    null-key-link ten fixed models of the OPEN FINDING `null-key-link-lost`, the mirror case: an instance related to one whose
+              identifying value is the null value of its STRING / UNIQUE_ID type; the reload loses the link
     unset-relink  twelve fixed models of the OPEN FINDING `unset-referential-relinks` (an unrelated referrer with an unset
               INTEGER / REAL / BOOLEAN referential attribute, an instance of the referred class carrying the type default
               as identifying value); D reports exactly that difference under the finding's signature, any other link
@@ -190,6 +192,25 @@ def _twins_specs():
 NONFINITE = [float('inf'), float('-inf'), float('nan')]
 
 
+def _null_key_specs():
+    """OPEN FINDING `null-key-link-lost` (mirror of unset-referential-relinks), generated on purpose: an instance is RELATED to
+    an instance whose identifying value is the null value of its STRING / UNIQUE_ID type ('' / 0 / unset); the key is
+    written as '' / the zero uuid, the loader treats it as null, the reload has no link."""
+    for ty, nullv in (('STRING', ''), ('STRING', None), ('UNIQUE_ID', 0), ('UNIQUE_ID', None), ('string', '')):
+        for variant in range(2):
+            b = {'kind': 'B', 'attrs': [['Id', ty]], 'idents': [['I1', ['Id']]], 'roles': ['key']}
+            a = {'kind': 'A', 'attrs': [['N', 'INTEGER'], ['B_Id', ty]], 'idents': [], 'roles': ['plain', 'ref']}
+            rows = [{'ci': 0, 'vals': [nullv]}, {'ci': 1, 'vals': [2, None]}]
+            links = [{'assoc': 0, 'src': 1, 'tgt': 0}]
+            if variant:
+                other = 'k1' if ty.upper() == 'STRING' else 77
+                rows += [{'ci': 0, 'vals': [other]}, {'ci': 1, 'vals': [3, None]}, {'ci': 1, 'vals': [4, None]}]
+                links.append({'assoc': 0, 'src': 3, 'tgt': 2})
+            assocs = [{'rel': 1, 'src': {'ci': 1, 'keys': ['B_Id'], 'many': True, 'cond': True, 'phrase': ''},
+                       'tgt': {'ci': 0, 'keys': ['Id'], 'many': False, 'cond': True, 'phrase': ''}}]
+            yield {'classes': [b, a], 'assocs': assocs, 'rows': rows, 'links': links, 'int_rel_ids': False}
+
+
 def _mk_case(spec, rng, tag, regen=False):
     perm = [0, 1, 2]
     rng.shuffle(perm)
@@ -209,6 +230,8 @@ def generate(ctx):
         yield _mk_case(spec, rng, 'sweep')
     for spec in _unset_relink_specs():
         yield _mk_case(spec, rng, 'unset-relink')
+    for spec in _null_key_specs():
+        yield _mk_case(spec, rng, 'null-key-link')
     for spec in _boundary_specs():
         yield _mk_case(spec, rng, 'boundary')
     for spec in _twins_specs():
@@ -398,40 +421,53 @@ def _two_generations(x, spec, built, paths, perm2, fail, stats):
 
 
 _DEFAULTS = {'INTEGER': 0, 'REAL': 0.0, 'BOOLEAN': False}
+KNOWN_SIGS = ('unset-referential-relinks', 'null-key-link-lost')
 
 
-def _only_unset_relinks(x, m, d0, d2):
-    """is the ONLY difference between the dump of the original `m` and that of its reload the open finding
-    `unset-referential-relinks`?  I.e. everything but the links is equal, no link was lost, and every link gained joins a
-    referrer all of whose referential attributes for that association were unset (INTEGER / REAL / BOOLEAN) to an instance
-    whose identifying values are the type defaults 0 / 0.0 / False."""
+def _null_key_findings(x, m, d0, d2):
+    """are the ONLY differences between the dump of the original `m` and that of its reload instances of the two open findings
+    about keys that are the null value of their type?  Returns the set of their signatures (empty: some other difference).
+      unset-referential-relinks  a link GAINED: a referrer all of whose referential attributes for the association were unset
+                                 (INTEGER / REAL / BOOLEAN) is joined to an instance whose identifying values are the type
+                                 defaults 0 / 0.0 / False (written alike, and not null for the loader);
+      null-key-link-lost         a link LOST: the identifying value of the referred instance is the null value of a STRING /
+                                 UNIQUE_ID attribute ('' / 0 / unset), which the loader treats as null.
+    Everything but the links must be equal."""
     def strip(d):
         return {'classes': d['classes'], 'assocs': [{k: v for k, v in a.items() if k not in ('links', 'links_back')} for a in d['assocs']]}
     if gen_schema.diff(strip(d0), strip(d2)) or len(d0['assocs']) != len(d2['assocs']):
-        return False
-    gained = 0
+        return set()
+    sigs = set()
     for a0, a2 in zip(d0['assocs'], d2['assocs']):
         for key in ('links', 'links_back'):
             l0 = set(map(lambda p: (tuple(p[0]), tuple(p[1])), a0[key]))
             l2 = set(map(lambda p: (tuple(p[0]), tuple(p[1])), a2[key]))
-            if l0 - l2:
-                return False
-            for (sk, si), (tk, ti) in l2 - l0:
-                src = m.metaclasses[sk].storage[si]
-                tgt = m.metaclasses[tk].storage[ti]
-                smc, tmc = m.metaclasses[sk], m.metaclasses[tk]
-                for sname, tname in zip(a0['src'][1], a0['tgt'][1]):
-                    sty = dict((n.upper(), t.upper()) for n, t in smc.attributes).get(sname.upper())
-                    tty = dict((n.upper(), t.upper()) for n, t in tmc.attributes).get(tname.upper())
-                    if sty not in _DEFAULTS or tty not in _DEFAULTS:
-                        return False
-                    if getattr(src, sname) is not None:
-                        return False
-                    tv = getattr(tgt, tname)
-                    if tv is None or isinstance(tv, str) or tv != _DEFAULTS[tty]:
-                        return False
-                gained += 1
-    return gained > 0
+            for gained, pairs in ((True, l2 - l0), (False, l0 - l2)):
+                for (sk, si), (tk, ti) in pairs:
+                    src = m.metaclasses[sk].storage[si]
+                    tgt = m.metaclasses[tk].storage[ti]
+                    sty = dict((n.upper(), t.upper()) for n, t in m.metaclasses[sk].attributes)
+                    tty = dict((n.upper(), t.upper()) for n, t in m.metaclasses[tk].attributes)
+                    if gained:
+                        for sname, tname in zip(a0['src'][1], a0['tgt'][1]):
+                            st, tt = sty.get(sname.upper()), tty.get(tname.upper())
+                            if st not in _DEFAULTS or tt not in _DEFAULTS or getattr(src, sname) is not None:
+                                return set()
+                            tv = getattr(tgt, tname)
+                            if tv is None or isinstance(tv, str) or tv != _DEFAULTS[tt]:
+                                return set()
+                        sigs.add('unset-referential-relinks')
+                    else:
+                        nullkey = False
+                        for sname, tname in zip(a0['src'][1], a0['tgt'][1]):
+                            tt = tty.get(tname.upper())
+                            tv = getattr(tgt, tname)
+                            if (tt == 'STRING' and tv in (None, '')) or (tt == 'UNIQUE_ID' and (tv is None or (not isinstance(tv, bool) and tv == 0))):
+                                nullkey = True
+                        if not nullkey:
+                            return set()
+                        sigs.add('null-key-link-lost')
+    return sigs
 
 
 def _file_load(x, path):
@@ -479,8 +515,14 @@ def run_impl(case):
     fails = []
     stats = {'models': 1, 'tag_' + case['tag']: 1}
 
+    known = {}
+
     def fail(sig, what):
-        if len(fails) < 4:
+        # entries of the open findings are kept once per signature and OUTSIDE the cap, so that they cannot crowd out
+        # later failures of the same case
+        if sig in KNOWN_SIGS:
+            known.setdefault(sig, {'sig': sig, 'what': what})
+        elif len(fails) < 4:
             fails.append({'sig': sig, 'what': what})
 
     built = gen_schema.build(x, spec)
@@ -600,11 +642,16 @@ def run_impl(case):
             continue
         d2 = gen_schema.dump(x, m2)
         diff = gen_schema.diff(d0, d2)
-        if diff and _only_unset_relinks(x, m, d0, d2):
+        sigs = _null_key_findings(x, m, d0, d2) if diff else set()
+        if 'unset-referential-relinks' in sigs:
             stats['unset_relinks'] = 1
             fail('unset-referential-relinks', 'route %s: an unrelated referrer with an unset INTEGER / REAL / BOOLEAN referential '
                  'attribute is linked after the reload to the instance that carries the type default as identifying value: %s' % (name, diff))
-        elif diff:
+        if 'null-key-link-lost' in sigs:
+            stats['null_key_links_lost'] = 1
+            fail('null-key-link-lost', 'route %s: a link to an instance whose identifying value is the null value of its type '
+                 "('' / id 0 / unset) is lost by the reload (the loader treats that key as null): %s" % (name, diff))
+        if diff and not sigs:
             fail('%s:reload-differs' % name, 'route %s: the reloaded metamodel differs from the original at %s' % (name, diff))
         # fixed point after one round
         if writer == 'skip':
@@ -659,7 +706,7 @@ def run_impl(case):
     except Exception:
         links_after = Sym('none')
     obs = [[Sym('texts')] + texts, [Sym('loads')] + [_load_obs(t) for t in texts] + [_load_obs(concat)],
-           [Sym('links'), _link_pairs(m), links_after], [Sym('round2'), _second_text(t_db, x.serialize_database),
+           [Sym('links'), Sym('not-key-denoted') if case['tag'] == 'null-key-link' else _link_pairs(m), links_after], [Sym('round2'), _second_text(t_db, x.serialize_database),
                                                          _second_text(t_inst, x.serialize_instances)]]
     if case.get('regen'):
         # last: this changes the in-memory model
@@ -673,7 +720,7 @@ def run_impl(case):
     for f in os.listdir(work):
         os.unlink(os.path.join(work, f))
     os.rmdir(work)
-    return {'obs': obs, 'd_fail': fails, 'nontrivial': nrows > 0 and (hazard or bool(spec['links'])),
+    return {'obs': obs, 'd_fail': fails + list(known.values()), 'nontrivial': nrows > 0 and (hazard or bool(spec['links'])),
             'key': _case_key(case), 'stats': stats}
 
 
@@ -726,6 +773,10 @@ def model_line(case):
 
 
 def model_obs(case, ans):
+    if case['tag'] == 'null-key-link' and isinstance(ans, list) and len(ans) > 2 and isinstance(ans[2], list) and len(ans[2]) == 3:
+        # the family relates instances across a key that is the null value: the in-memory links are by construction NOT the
+        # links the key values denote (hypothesis KeysResolve of the theorems fails), so that leg is not compared
+        ans = ans[:2] + [[ans[2][0], Sym('not-key-denoted'), ans[2][2]]] + ans[3:]
     return ans
 
 
